@@ -122,6 +122,9 @@ func defaultsTrial(r *vh.Run, i int) {
 	if describe(again) != describe(c) {
 		bad("idempotent", "a second SetDefaults changed the configuration")
 	}
+	if i < 2 {
+		r.Sample(map[string]any{"part": "defaults", "input": describe(orig), "output": describe(c)})
+	}
 	r.Count("default_trials", 1)
 	r.Distinct("cells", "defaults/"+fmt.Sprint(orig.API.PushEnabled == nil, orig.Storage.GC.EmptyRepo == nil, orig.Storage.GC.Frequency, orig.Storage.StoreType))
 }
@@ -418,6 +421,9 @@ func binaryTable(r *vh.Run, bin string, i int) {
 			r.Violation("store-type:mem-written", "with --store-type mem an acknowledged blob push was written under --dir", wit)
 		}
 	}
+	if i < 2 {
+		r.Sample(map[string]any{"part": "binary", "args": args, "switches": s.String()})
+	}
 	r.Count("binary_launches", 1)
 }
 
@@ -578,6 +584,9 @@ func rateTrial(r *vh.Run, i int) {
 	r.Count("rate_trials", 1)
 	r.Count("rate_qualifying_requests", qualifying)
 	r.Distinct("cells", fmt.Sprintf("rate/%d/%d/%v", L, qualifying, useXFF))
+	if i < 1 {
+		r.Sample(map[string]any{"part": "rate-limit", "limit": L, "sent_within_window": qualifying, "served": served, "refused": refused, "x_forwarded_for": useXFF})
+	}
 	if served != want {
 		r.Violation("ratelimit:count", fmt.Sprintf("limit %d: of %d requests from one address inside its accounting second %d were served, expected %d", L, qualifying, served, want), wit)
 		return
